@@ -287,6 +287,21 @@ def run_case(mod, case, opts):
             r, m, dt = smt.check_api(list(o.pc) + list(getattr(o.kp.dom, 'hyp', [])), 5)
             wit = r; break
     res['witness_pc_sat'] = wit
+    # vacuity: the definedness hypotheses (non-zero divisors, purification definitions) must be satisfiable together with the
+    # path condition on at least one path; otherwise every obligation above was discharged from a contradiction
+    if kpaths and not res['sat']:
+        vac = None
+        for kp in kpaths:
+            hy = list(getattr(kp.dom, 'hyp', [])) + (list(case.hyps(kp)) if hasattr(case, 'hyps') else [])
+            if not hy: vac = False; break
+            r, m, dt = smt.check_api(list(kp.pc) + hy, 5); solver_t += dt
+            if r != 'unsat': vac = False; break
+            vac = True
+        res['vacuous'] = bool(vac)
+        if vac:
+            r, m, dt = smt.check_api(list(base_pc), 5)
+            res['sat'].append({'label': 'defined', 'note': 'no input admitted by the precondition reaches a defined result on any path (a divisor is zero for all of them)',
+                               'model': m if r == 'sat' and m else {}, 'kind': 'vacuous'})
     # concrete predictions for native validation
     if opts.get('validate', True) and kpaths:
         try:
